@@ -3,6 +3,7 @@ package main
 import (
 	"fmt"
 	"math"
+	"sync"
 
 	"github.com/tuneinsight/lattigo/v6/core/rlwe"
 	"github.com/tuneinsight/lattigo/v6/multiparty"
@@ -578,22 +579,61 @@ func mpCases() []copyCase {
 		ops: []op{{"2-party enc-to-share-to-enc", func(e *env, o interface{}) []byte {
 			return ckE2S2E(e, nil, o.(*mpckks.ShareToEncProtocol))
 		}}}})
-	cs = append(cs, copyCase{name: "mpckks.MaskedLinearTransformationProtocol.ShallowCopy", envKind: "ckks", kind: shallow, concurrent: true, configs: []string{"default"},
+	// ckOut: the OUTPUT parameters of the masked-transformation protocols. Config "outscale": same ring and chain, another
+	// default scale (2^34 instead of 2^40), so that a copy that derives its scale from the input parameters differs.
+	ckOut := func(e *env, cfg string) ckks.Parameters {
+		if cfg != "outscale" {
+			return e.ckkP
+		}
+		po, err := ckks.NewParametersFromLiteral(ckks.ParametersLiteral{LogN: e.ckkP.LogN(), Q: e.ckkP.Q(), P: e.ckkP.P(), LogDefaultScale: 34})
+		if err != nil {
+			panic(err)
+		}
+		return po
+	}
+	ckDecWith := func(e *env, po ckks.Parameters, ct *rlwe.Ciphertext) []byte {
+		out := make([]float64, po.MaxSlots())
+		if err := ckks.NewEncoder(po).Decode(rlwe.NewDecryptor(po.Parameters, e.skSum()).DecryptNew(ct), out); err != nil {
+			return errBytes(err)
+		}
+		s := fmt.Sprint("level=", ct.Level(), " scale=2^", int(ct.Scale.Log2()+0.5), " ")
+		for _, x := range out {
+			s += fmt.Sprintf("%v/64 ", math.Round(x*64))
+		}
+		return []byte(s)
+	}
+	// object -> config it was built with (harness bookkeeping only; guarded: the race pass builds copies in goroutines)
+	var mltMu sync.Mutex
+	mltMap := map[*mpckks.MaskedLinearTransformationProtocol]string{}
+	mltSet := func(p *mpckks.MaskedLinearTransformationProtocol, cfg string) {
+		mltMu.Lock()
+		mltMap[p] = cfg
+		mltMu.Unlock()
+	}
+	mltGet := func(p *mpckks.MaskedLinearTransformationProtocol) string {
+		mltMu.Lock()
+		defer mltMu.Unlock()
+		return mltMap[p]
+	}
+	cs = append(cs, copyCase{name: "mpckks.MaskedLinearTransformationProtocol.ShallowCopy", envKind: "ckks", kind: shallow, concurrent: true, configs: []string{"default", "outscale"},
 		build: func(e *env, cfg string) interface{} {
-			p, err := mpckks.NewMaskedLinearTransformationProtocol(e.ckkP, e.ckkP, 128, noise)
+			p, err := mpckks.NewMaskedLinearTransformationProtocol(e.ckkP, ckOut(e, cfg), 128, noise)
 			if err != nil {
 				panic(err)
 			}
+			mltSet(&p, cfg)
 			return &p
 		},
 		copy: func(e *env, o interface{}) interface{} {
 			p := o.(*mpckks.MaskedLinearTransformationProtocol).ShallowCopy()
+			mltSet(&p, mltGet(o.(*mpckks.MaskedLinearTransformationProtocol)))
 			return &p
 		},
 		ops: []op{{"2-party masked transform (identity)", func(e *env, o interface{}) []byte {
 			return try(func() []byte {
 				p0 := o.(*mpckks.MaskedLinearTransformationProtocol)
-				p1, _ := mpckks.NewMaskedLinearTransformationProtocol(e.ckkP, e.ckkP, 128, noise)
+				po := ckOut(e, mltGet(p0))
+				p1, _ := mpckks.NewMaskedLinearTransformationProtocol(e.ckkP, po, 128, noise)
 				minLevel, logBound, ok := mpckks.GetMinimumLevelForRefresh(128, e.ckkP.DefaultScale(), 2, e.ckkP.Q())
 				if !ok {
 					return []byte("n/a: not enough levels")
@@ -615,7 +655,7 @@ func mpCases() []copyCase {
 				if err := p0.Transform(ct, nil, crp, s0, out); err != nil {
 					return errBytes(err)
 				}
-				return ckDec(e, out)
+				return ckDecWith(e, po, out)
 			})
 		}}, {"WithParams then 2-party transform", func(e *env, o interface{}) []byte {
 			return try(func() []byte {
